@@ -59,6 +59,84 @@ def _role_names(fn):
     return fn
 
 
+def _coalesce_search_result(fn):
+    """`X = yield from _find_next(L, H)` with X another local than L, where
+    L is dead from that statement on until it is assigned again (no path
+    reads L before a store to it): X and L never hold a value at the same
+    time that anybody looks at, so X is written back as L - the one-variable
+    form the rules read.  fn is returned unchanged when L is live."""
+    from ..cfg import CFG as _CFG, suspension_may_raise as _smr
+    from ..inline import acopy
+    site = None
+    for n in ast.walk(fn):
+        if isinstance(n, ast.Assign) and len(n.targets) == 1 and isinstance(
+                n.targets[0], ast.Name) and isinstance(
+                    n.value, ast.YieldFrom) and isinstance(
+                        n.value.value, ast.Call) and unparse(
+                            n.value.value.func) == "_find_next" and len(
+                                n.value.value.args) == 2 and all(
+                                    isinstance(a, ast.Name)
+                                    for a in n.value.value.args) and \
+                n.value.value.args[0].id != n.targets[0].id:
+            if site is not None:
+                return fn
+            site = n
+    if site is None:
+        return fn
+    X, L = site.targets[0].id, site.value.value.args[0].id
+    # X is stored nowhere else
+    if sum(1 for n in ast.walk(fn) if isinstance(n, ast.Name) and
+           n.id == X and isinstance(n.ctx, ast.Store)) != 1:
+        return fn
+    cfg = _CFG(fn, may_raise=_smr, name="Commissioning")
+    start = [n for n in cfg.reachable if n.ast is site]
+    if len(start) != 1:
+        return fn
+
+    def loads_stores(node):
+        a = node.ast
+        if a is None:
+            return False, False
+        root = a
+        if node.kind == "for":
+            root = a.iter
+        elif node.kind in ("test",):
+            root = a
+        ld = st = False
+        for x in ast.walk(root) if not isinstance(
+                root, (ast.For, ast.While, ast.If, ast.Try, ast.With)) \
+                else []:
+            if isinstance(x, ast.Name) and x.id == L:
+                if isinstance(x.ctx, ast.Load):
+                    ld = True
+                else:
+                    st = True
+        if node.kind == "for" and any(isinstance(
+                x, ast.Name) and x.id == L for x in ast.walk(a.target)):
+            st = True
+        return ld, st
+    seen, stack = set(), [m for (l, m) in start[0].succ]
+    while stack:
+        n = stack.pop()
+        if n.id in seen:
+            continue
+        seen.add(n.id)
+        if n is start[0]:
+            # back at the search without a store: its argument reads L
+            return fn
+        ld, st = loads_stores(n)
+        if ld:
+            return fn
+        if st:
+            continue
+        stack += [m for (l, m) in n.succ]
+    out = acopy(fn)
+    for n in ast.walk(out):
+        if isinstance(n, ast.Name) and n.id == X:
+            n.id = L
+    return out
+
+
 def check(run, repo, world):
     run.explanation = (
         "Decides the structural clauses of C07 on the generator CFGs of "
@@ -76,6 +154,7 @@ def check(run, repo, world):
     ]
     mod = repo.mod(MOD)
     m, fn, _ = world.func(MOD + ".Commissioning")
+    fn = _coalesce_search_result(fn)
     fn = _role_names(fn)
     fn = normalise(fn, world, MOD, primitives=("_find_next", "progress"),
                    aliases="params", lift_values=True)
